@@ -427,6 +427,24 @@ class C01(Prop):
                 if st["proc"].poll() is None:
                     st["proc"].kill()
                     st["proc"].wait()
+        # 4. thorough: the timing-dependent pairing found on this property (gRPC reference server, gRPC-Web over
+        #    HTTP/1.1, large half-duplex streams; fixed in /repo 9b5a7d5) is run again and again
+        if ctx.tier == "thorough" and not vs:
+            run = plan[1]
+            reps, bad = 25, 0
+            pattern = "Client Message Size/HTTPVersion:1/**/(grpc server impl)/**"
+            rel = "./" + os.path.relpath(run[3], core.REPO) if run[3].startswith(core.REPO + os.sep) else run[3]
+            cmd = [bins["connectconformance"], "-v", "--conf", rel, "--mode", "client", "--trace", "--run", pattern,
+                   "--", bins["referenceclient"]]
+            for i in range(reps):
+                rc, log, _ = core.run_cmd(cmd, cwd=core.REPO, timeout=300, check=False)
+                if rc != 0:
+                    bad += 1
+                    if bad == 1:
+                        m = re.search(r"^FAILED: (.*?):$", log, re.M)
+                        vs.append(self._violation(run, cmd[:1] + ["--conf", rel, "--mode", "client", "--known-failing", "@" + run[5], "--"] + cmd[-1:],
+                                                  "repeated filtered run %d of %d failed" % (i + 1, reps), m.group(1) if m else None, log[-3000:]))
+            ctx.notes["stress_grpcweb_http1"] = "%d repetitions, %d failed" % (reps, bad)
         ctx.notes["exhaustive"] = (ctx.tier == "thorough")
         ctx.notes["executed_permutations"] = sum(ctx.notes.get("run_" + r[0], {}).get("sent", 0) for r in plan)
         ctx.notes["runs"] = [r[0] + ("" if ctx.tier == "thorough" or not r[0].startswith("reference") else " (reduced config)") for r in plan]
